@@ -1,6 +1,13 @@
 // Engine h_path (C16): runs the real CgroupPath / Util::split / Fs::glob on generated inputs.
 #include "common.h"
 
+#include <fcntl.h>
+#include <sys/socket.h>
+#include <sys/stat.h>
+#include <sys/sysmacros.h>
+#include <sys/un.h>
+#include <unistd.h>
+
 #include <algorithm>
 
 #include "oomd/include/CgroupPath.h"
@@ -81,10 +88,43 @@ static void doPair(const Json::Value& sc, Json::Value& out) {
   out["prefix"] = a.hasDescendantWithPrefixMatching(b);
 }
 
+// a non-directory of another file type than "regular": unix socket (st_mode shares the S_IFDIR bit), fifo, block device when
+// mknod is permitted; falls back to a regular file
+static void mkSpecial(const std::string& path, const std::string& kind) {
+  size_t sl = path.rfind('/');
+  std::string dir = path.substr(0, sl), base = path.substr(sl + 1);
+  bool ok = false;
+  if (kind == "fifo") {
+    ok = ::mkfifo(path.c_str(), 0644) == 0;
+  } else if (kind == "blk") {
+    ok = ::mknod(path.c_str(), S_IFBLK | 0600, makedev(7, 200)) == 0;
+    if (!ok) ok = false;
+  }
+  if (kind == "sock" || (kind == "blk" && !ok)) {
+    int cwd = ::open(".", O_RDONLY | O_DIRECTORY);
+    if (cwd >= 0 && ::chdir(dir.c_str()) == 0 && base.size() < 100) {
+      int s = ::socket(AF_UNIX, SOCK_STREAM, 0);
+      struct sockaddr_un a;
+      memset(&a, 0, sizeof(a));
+      a.sun_family = AF_UNIX;
+      strcpy(a.sun_path, base.c_str());
+      ok = s >= 0 && ::bind(s, (struct sockaddr*)&a, sizeof(a)) == 0;
+      if (s >= 0) ::close(s);
+      if (::fchdir(cwd) != 0) abort();
+    }
+    if (cwd >= 0) ::close(cwd);
+  }
+  if (!ok) vh::writeFile(path, "x");
+}
+
 static void doResolve(const Json::Value& sc, Json::Value& out) {
   std::string top = vh::freshDir("path");
   for (auto& d : sc["dirs"]) vh::mkdirs(top + "/" + d.asString());
-  for (auto& f : sc["files"]) vh::writeFile(top + "/" + f.asString(), "x");
+  const Json::Value& fk = sc["fkinds"];
+  for (auto& f : sc["files"]) {
+    std::string k = fk.isObject() ? fk.get(f.asString(), "reg").asString() : "reg";
+    if (k == "reg") vh::writeFile(top + "/" + f.asString(), "x"); else mkSpecial(top + "/" + f.asString(), k);
+  }
   std::string fs = top + "/" + sc["fsAt"].asString();
   if (sc.get("fs_trailing_slash", false).asBool()) fs += "/";
   CgroupPath pat(fs, sc["pattern"].asString());
